@@ -589,6 +589,8 @@ func rulesC01(w *World, r *Report) {
 	r.Rule("C01.R4", "the batch writer aligns and stores every point of the batch it is given (no filtering inside archiveUpdateMany)", 2)
 	ruleWriterWritesAll(w, r, "C01.R4")
 	r.Rule("C01.R5", "read-side slot addressing: fetchRawPoints fills its result one slot at a time with readPointAt, the file offset of consecutive result elements advancing by pointSize (a loop variable stepping by 12, base+i*12, or pointOffsetAt of a stepping index) and the result index by one", 1)
+	ruleFetchEmptyOnlyWhenNeverWritten(w, r, "C01.R5")
+	ruleFetchReadsOnlyThroughSlotReader(w, r, "C01.R5")
 	ruleRawReadProgression(w, r, "C01.R5")
 }
 
